@@ -82,7 +82,7 @@ InvExit == exit => tries >= MaxTries
 SetToSeq0(S) == LET RECURSIVE F(_) F(T) == IF T = {} THEN <<>> ELSE LET x == CHOOSE x \in T : \A y \in T : x <= y IN <<x>> \o F(T \ {x}) IN F(S)
 EmitDone == ADone => PrintT(ToJson([kind |-> "CASE", case |->
    [kind |-> "inc", min |-> c.min, max |-> c.max, desired |-> c.desired, nmemb |-> c.desired, d |-> c.d, fleet |-> TRUE, lifecycle |-> c.lifecycle,
-    types |-> c.types, subnets |-> c.subnets, tagging |-> c.tagging, never |-> c.never, readyK |-> c.ready, prefail |-> c.tries0,
+    types |-> c.types, subnets |-> c.subnets, tagging |-> c.tagging, never |-> c.never, readyK |-> c.ready, prefail |-> c.tries0, preInc |-> 0,
     failDescribe |-> plan.failDescribe, failCreate |-> plan.failCreate, noCapacity |-> plan.noCapacity, failSet |-> FALSE,
     failAttach |-> plan.failAttach, failTerm |-> SetToSeq0(plan.failTerm), failNodes |-> <<>>, list |-> <<>>]]))
 =============================================================================
